@@ -24,6 +24,10 @@ pub struct Case {
     /// infinities, neighbours, subnormals); the derivative content is that of a and b
     #[serde(default)]
     pub special: Vec<(Fl, Fl)>,
+    /// remainder-only value pairs (dividend, divisor) whose float quotient lies within a few ulps
+    /// of a whole number (decimal inputs such as 0.3 % 0.1), on either side of it
+    #[serde(default)]
+    pub rem_pairs: Vec<(Fl, Fl)>,
 }
 
 const SPECIALS: [f64; 12] = [0.0, -0.0, f64::NAN, f64::INFINITY, f64::NEG_INFINITY, 1.0, 1.0000000000000002, -1.0, 5e-324, -5e-324, f64::MAX, f64::MIN_POSITIVE];
@@ -193,6 +197,30 @@ macro_rules! check_typed {
                 return;
             }
         }
+        // ---- remainders of decimal-looking pairs whose quotient is a hair away from a whole number.
+        // "The truncated quotient" has two readings there - of the float quotient p / q, or of the
+        // exact quotient (what fmod uses) - which differ by one when the float division rounds
+        // across a whole number (0.9 / 0.1 = 9.000000000000002 but 0.9 = 8 x 0.1 + 0.0999..).
+        // Either is accepted, consistently in value and derivatives; anything else is not.
+        for (p, q) in $c.rem_pairs.iter().map(|(p, q)| (p.0, q.0)) {
+            let (sa, sb): ($T, $T) = ($c.a.with_real(p).$mk(), $c.b.with_real(q).$mk());
+            let (vsa, vsb) = (view(&wrap(sa.clone())), view(&wrap(sb.clone())));
+            let plain_p: View = (p, BTreeMap::new(), BTreeMap::new());
+            let plain_q: View = (q, BTreeMap::new(), BTreeMap::new());
+            let candidates = [(p / q).trunc(), ((p - p % q) / q).round()];
+            let forms2: [(&str, View, &View, &View); 3] = [("number % number", view(&wrap(&sa % &sb)), &vsa, &vsb), ("number % float", view(&wrap(&sa % q)), &vsa, &plain_q), ("float % number", view(&wrap(p % &sb)), &plain_p, &vsb)];
+            for (name, got, va2, vb2) in forms2 {
+                let scale = p.abs() + q.abs();
+                let ok = candidates.iter().any(|d| {
+                    let exp = lincomb(1.0, va2, -d, vb2);
+                    views_close(&got, &exp, 1e-12) || ((got.0 - exp.0).abs() <= 1e-12 * scale && views_close(&(0.0, got.1.clone(), got.2.clone()), &(0.0, exp.1.clone(), exp.2.clone()), 1e-12))
+                });
+                if !ok {
+                    $v.fail(format!("remainder | {} is not a - b*trunc(a/b) in value and derivatives", name), format!("near-integer quotient {:?} / {:?} = {:?} (accepted quotients {:?}): got {:?}", p, q, p / q, candidates, got));
+                    return;
+                }
+            }
+        }
         // owned forms agree with the reference forms
         if !views_close(&view(&wrap(a.clone() % b.clone())), &view(&wrap(&a % &b)), 0.0) || !views_close(&view(&wrap(a.clone() % f)), &view(&wrap(&a % f)), 0.0) || !views_close(&view(&wrap(f % b.clone())), &view(&wrap(f % &b)), 0.0) {
             $v.fail("remainder | owned operand forms differ from reference forms", "".to_string());
@@ -222,6 +250,22 @@ macro_rules! check_typed {
             if !views_close(&view(&wrap(alt.clone())), &view(&wrap(s.clone())), 0.0) {
                 $v.fail(format!("sum depends on the iterator it is fed from | {}", name), format!("{:?} through {} vs {:?} through a slice iterator", view(&wrap(alt)), name, view(&wrap(s))));
                 return;
+            }
+        }
+        // a sequence of RELATED terms (copies, scaled copies and products of earlier terms: they share
+        // variable-list storage with one another in every possible pattern) against an explicit fold
+        if seq.len() >= 2 {
+            let rel: Vec<$T> = vec![seq[0].clone(), &seq[1] * &seq[0], &seq[0] * 2.0, seq[0].clone(), &seq[0] * &seq[1], seq[1].clone(), &seq[0] + &seq[1]];
+            for take in 3..=rel.len() {
+                let by_sum: $T = rel[..take].iter().cloned().sum();
+                let mut by_fold: $T = <$T>::zero();
+                for t in &rel[..take] {
+                    by_fold = &by_fold + t;
+                }
+                if !views_close(&view(&wrap(by_sum.clone())), &view(&wrap(by_fold.clone())), 1e-14) {
+                    $v.fail("sum of related terms differs from adding them one by one", format!("first {} of [s0, s1*s0, 2 s0, s0, s0*s1, s1, s0+s1] with s0 = {:?}, s1 = {:?}: sum {:?}, fold {:?}", take, view(&wrap(seq[0].clone())), view(&wrap(seq[1].clone())), view(&wrap(by_sum)), view(&wrap(by_fold))));
+                    return;
+                }
             }
         }
         if seq.is_empty() && (s.real() != 0.0 || s.vars().len() != 0) {
@@ -283,6 +327,7 @@ impl Property for C19 {
         v.label_if(x == y, "values:equal");
         v.label_if(f < 0.0, "float:negative");
         v.label_if(c.seq.is_empty(), "sum:empty");
+        v.label_if(c.rem_pairs.iter().any(|(p, q)| { let r = p.0 / q.0; (r - r.round()).abs() < 1e-12 && r != r.round() }), "remainder:quotient-a-hair-from-a-whole-number");
         v.label_if(c.special.iter().any(|(p, q)| p.0 == 0.0 && q.0 == 0.0 && p.0.is_sign_negative() != q.0.is_sign_negative()), "special:signed-zero-pair");
         v.label_if(c.special.iter().any(|(p, q)| p.0.is_nan() || q.0.is_nan()), "special:nan");
         v.nt(x < 0.0 || y < 0.0 || f < 0.0);
@@ -303,20 +348,31 @@ impl Property for C19 {
 
     fn plan(&self, tier: Tier) -> Vec<Stage<Case>> {
         vec![Stage::random("random", tier.pick(500_000, 12_000_000), || {
-            (1u8..=2, num_spec(), num_spec(), num_spec(), real_value(), proptest::collection::vec(num_spec(), 0..6), prop::bool::weighted(0.15), proptest::collection::vec((0usize..12, 0usize..12), 0..3)).prop_map(
-                |(kind, a, mut b, a_alt, f, seq, equal, special)| {
+            (1u8..=2, num_spec(), num_spec(), num_spec(), real_value(), proptest::collection::vec(num_spec(), 0..6), prop::bool::weighted(0.15), proptest::collection::vec((0usize..12, 0usize..12), 0..3), proptest::collection::vec((1u32..=60, 1u32..=99, 1u32..=4, any::<bool>(), -2i8..=2), 0..3)).prop_map(
+                |(kind, a, mut b, a_alt, f, seq, equal, special, rem)| {
+                    // divisor d / 10^j, dividend = the float closest to m * divisor written as a decimal,
+                    // nudged by a few ulps either way
+                    let rem_pairs = rem
+                        .into_iter()
+                        .map(|(m, d, j, neg, nudge)| {
+                            let q = d as f64 / 10f64.powi(j as i32);
+                            let p = (m as f64 * d as f64) / 10f64.powi(j as i32);
+                            let p = f64::from_bits((p.to_bits() as i64 + nudge as i64) as u64);
+                            (Fl(if neg { -p } else { p }), Fl(q))
+                        })
+                        .collect();
                     if equal {
                         b.real = a.real;
                     }
                     let special = special.into_iter().map(|(i, j)| (Fl(SPECIALS[i]), Fl(SPECIALS[j]))).collect();
-                    Case { kind, a, b, a_alt, f, seq, special }
+                    Case { kind, a, b, a_alt, f, seq, special, rem_pairs }
                 },
             )
         })]
     }
 
     fn rule(&self) -> String {
-        "random (kind, two numbers with arbitrary derivative content and values of either sign incl. equal values, an alternative derivative content for the first, a float of either sign, a sequence of 0-5 numbers). Oracle: <,<=,>,>=,partial_cmp between numbers and with a float on either side == the float comparison of the values and unchanged when derivatives are replaced, also through the generic number container in all six operand positions (container/container, container/float container, container/float and the mirror images); a == b => Equal; 0-2 pairs from a table of special floats (signed zeros, NaN, infinities, neighbouring doubles, subnormals, MAX) compared in six operand forms against the float comparison; abs flips value and every derivative iff the value is negative; a % b, a % float, float % b == a - b*trunc(a/b) by name in value and derivatives (1e-12) and in value == the float remainder; owned forms == reference forms; sum == left fold from zero by name and identical through five kinds of iterator (filter, flat_map, skip_while/take_while, from_fn, owned), empty sum == variable-free zero; x+0, 0+x, x*1, 1*x == x by name; is_zero <=> value 0 and all derivatives 0. Non-trivial: a negative operand, divisor or float.".into()
+        "random (kind, two numbers with arbitrary derivative content and values of either sign incl. equal values, an alternative derivative content for the first, a float of either sign, a sequence of 0-5 numbers). Oracle: <,<=,>,>=,partial_cmp between numbers and with a float on either side == the float comparison of the values and unchanged when derivatives are replaced, also through the generic number container in all six operand positions (container/container, container/float container, container/float and the mirror images); a == b => Equal; 0-2 pairs from a table of special floats (signed zeros, NaN, infinities, neighbouring doubles, subnormals, MAX) compared in six operand forms against the float comparison; abs flips value and every derivative iff the value is negative; a % b, a % float, float % b == a - b*trunc(a/b) by name in value and derivatives (1e-12) and in value == the float remainder; owned forms == reference forms; 0-2 remainder pairs built from decimals (dividend = m x divisor as written, nudged by 0-2 ulps: quotients a hair below or above a whole number); a sum of related terms (copies, scaled copies, products of earlier terms) == adding them one by one; sum == left fold from zero by name and identical through five kinds of iterator (filter, flat_map, skip_while/take_while, from_fn, owned), empty sum == variable-free zero; x+0, 0+x, x*1, 1*x == x by name; is_zero <=> value 0 and all derivatives 0. Non-trivial: a negative operand, divisor or float.".into()
     }
 
     fn floors(&self, tier: Tier) -> Vec<Floor> {
@@ -330,6 +386,7 @@ impl Property for C19 {
             Floor { label: "sum:empty", min: n / 20 },
             Floor { label: "special:signed-zero-pair", min: n / 200 },
             Floor { label: "special:nan", min: n / 50 },
+            Floor { label: "remainder:quotient-a-hair-from-a-whole-number", min: n / 50 },
         ]
     }
 
